@@ -122,6 +122,8 @@ theorem raw_psf1_fails (f : BitFont) (h : Nat) (wf : WfFont f h) (h256 : f.glyph
   rw [hd] at hfb
   unfold fromBytes at hfb
   simp only [true_and, if_true, loadPsf1] at hfb
+  split at hfb
+  · cases hfb
   injection hfb with hfb
   have hh : (e : Int) = f.h := by rw [← hfb]
   have hg : glyphsFromU8 e rest = f.glyphs := by rw [← hfb]
